@@ -918,5 +918,10 @@ def _r1514(ck, prog, cfg):
                      "terminator, so a complete line is reported as unterminated or swallowed into the next frame" % (c or "a variable number of"),
                      f.where(st["ln"]), detail="resume = candidate + 1")
             k += 1
-        ck.ok("R15.14", "%s::find_crlf:scanned%s" % (owner, _tag(cfg)), detail="%d loop-carried position updates" % k)
+        # iterator forms that enumerate every candidate by construction: windows(2) slides by one, memchr_iter yields every CR
+        enum_ = [callee(t).rsplit("::", 1)[-1] for g in prog.with_children(f) for _, t in g.calls()
+                 if is_callee(t, r"<impl \[u8\]>::windows$", r"memchr::memchr_iter$", r"memchr::memmem::find(_iter)?$")]
+        if k == 0 and enum_:
+            n += 1
+        ck.ok("R15.14", "%s::find_crlf:scanned%s" % (owner, _tag(cfg)), detail="%d loop-carried position updates; enumerating adaptors: %s" % (k, enum_))
     ck.floor("R15.14" + _tag(cfg), n, 1)
